@@ -195,7 +195,7 @@ Deliver(dp, raw, m, val) ==
       [] OTHER ->      \* "rep": append to the list stored in the owner's slot
             LET oi == Len(m.stack) - 1
                 ow == m.stack[oi]
-                items == Lookup(ow.vals, fr.f.name).v \o <<val>>
+                items == Lookup(ow.vals, fr.f.name).l \o <<val>>
                 ow2 == [ow EXCEPT !.vals = SetVal(@, fr.f.name, ListV(items))]
                 st2 == [m.stack EXCEPT ![oi] = ow2]
                 m2 == [m EXCEPT !.stack = st2]
@@ -222,7 +222,7 @@ ExecValueField(dp, raw, m, f) ==
             IF f.size.m \in {"const", "field", "expr"}
             THEN LET n == EvalSpec(f.size, env) IN
                  IF ~n.ok \/ n.v.t # "int" THEN FailU(m)
-                 ELSE LET r == ReadSized(raw, m.cur, n.v.v) IN
+                 ELSE LET r == ReadSized(raw, m.cur, n.v.i) IN
                       IF r.ok THEN Deliver(dp, raw, WithReads([m EXCEPT !.cur = r.cur], r.reads), BytesV(r.v))
                       ELSE FailU(WithReads(m, r.reads))
             ELSE IF f.size.m = "marker"
@@ -259,7 +259,7 @@ ExecField(dp, raw, m) ==
       [] f.k = "Move" ->
             LET a == MoveArg(f.mv, env) IN
             IF ~a.ok \/ a.v.t # "int" THEN FailU(m)
-            ELSE LET t == MoveTarget(f.mv, a.v.v, m.cur, fr.pos) IN
+            ELSE LET t == MoveTarget(f.mv, a.v.i, m.cur, fr.pos) IN
                  IF ~t.ok THEN FailU(m)
                  ELSE [m EXCEPT !.cur = t.to, !.stack = SetTop(@, Advance(fr, t.to)),
                                 !.evs = Append(@, Event(dp, fr, t.to))]
@@ -278,14 +278,14 @@ ExecField(dp, raw, m) ==
                 m1 == [m EXCEPT !.stack = SetTop(@, fr1)]
                 cnt == IF f.count.m = "none" THEN Ok(IntV(1)) ELSE EvalSpec(f.count, EnvU(raw, m1))
             IN IF ~cnt.ok \/ cnt.v.t # "int" THEN FailU(m1)
-               ELSE LET skipByCount == f.when.m # "none" /\ cnt.v.v <= 0
+               ELSE LET skipByCount == f.when.m # "none" /\ cnt.v.i <= 0
                         w == IF f.when.m = "none" \/ skipByCount THEN [ok |-> TRUE, b |-> TRUE]
                              ELSE CondTruth(f.when, EnvU(raw, m1))
                     IN IF ~w.ok THEN FailU(m1)
                        ELSE IF skipByCount \/ ~w.b
                        THEN [m1 EXCEPT !.stack = SetTop(@, Advance(fr1, m.cur)),
                                        !.evs = Append(@, Event(dp, fr, m.cur))]
-                       ELSE [m1 EXCEPT !.stack = Append(@, [kind |-> "rep", f |-> f, left |-> cnt.v.v,
+                       ELSE [m1 EXCEPT !.stack = Append(@, [kind |-> "rep", f |-> f, left |-> cnt.v.i,
                                                             until |-> f.count.m = "none"])]
       [] f.k = "Opt" ->
             LET w == CondTruth(f.when, env) IN
@@ -324,7 +324,7 @@ DescRead(f, vals, explicit) ==       \* [ok, v]
     IF f.name \in explicit THEN Ok(Lookup(vals, f.name))
     ELSE IF f.desc.kind = "autolen"
          THEN LET t == IF HasVal(vals, f.desc.of) THEN Lookup(vals, f.desc.of) ELSE NoneV IN
-              IF t.t \in {"bytes", "list"} THEN Ok(IntV(Len(t.v))) ELSE Raise
+              IF t.t \in {"bytes", "list"} THEN Ok(IntV(Len(PL(t)))) ELSE Raise
          ELSE Eval(f.desc.e, [vals |-> vals, raw |-> <<>>, cur |-> 0])
 
 RECURSIVE SyncVals(_, _, _, _)
@@ -378,15 +378,15 @@ PackValue(dp, p, f, v) ==
         opts == dp[ow.cls].opts
     IN
     CASE f.k = "Int" ->
-            IF v.t # "int" \/ ~Representable(v.v, f.n, f.signed) THEN FailP(p)
-            ELSE LET r == PAppend(p, Encode(v.v, f.n, IsBig(f, opts))) IN
+            IF v.t # "int" \/ ~Representable(v.i, f.n, f.signed) THEN FailP(p)
+            ELSE LET r == PAppend(p, Encode(v.i, f.n, IsBig(f, opts))) IN
                  IF r.ok THEN PDone(dp, r.p) ELSE FailP(r.p)
       [] f.k = "Data" ->
             IF v.t # "bytes" THEN FailP(p)
             ELSE LET d == CASE f.size.m = "marker" -> IF f.size.incl THEN <<>> ELSE f.size.b
                             [] f.size.m = "regex" -> IF f.size.incl THEN <<>> ELSE GetReg(p.regs, ow.cls, f.name)
                             [] OTHER -> <<>>
-                     r == PAppend(p, v.v \o d)
+                     r == PAppend(p, v.b \o d)
                  IN IF r.ok THEN PDone(dp, r.p) ELSE FailP(r.p)
       [] f.k = "Ref" ->
             IF v.t # "pkt" THEN FailP(p)
@@ -416,11 +416,11 @@ PackField(dp, p) ==
       [] f.k = "Move" ->
             LET a == MoveArg(f.mv, env) IN
             IF ~a.ok \/ a.v.t # "int" THEN FailP(p)
-            ELSE LET t == MoveTarget(f.mv, a.v.v, p.frag.cur, fr.pos) IN
+            ELSE LET t == MoveTarget(f.mv, a.v.i, p.frag.cur, fr.pos) IN
                  IF ~t.ok THEN FailP(p) ELSE PDone(dp, PSetCur(p, t.to))
       [] f.k = "Bits" ->
             IF ~has \/ Lookup(fr.vals, f.name).t # "int" THEN FailP(p)
-            ELSE LET v == Lookup(fr.vals, f.name).v
+            ELSE LET v == Lookup(fr.vals, f.name).i
                      sh == Pow(2, ShiftOf(fs, fr.idx))
                      wd == Pow(2, f.w)
                      old == (fr.bitsI \div sh) % wd
@@ -432,7 +432,7 @@ PackField(dp, p) ==
                     ELSE PDone(dp, p2)
       [] f.k = "Rep" ->
             IF ~has \/ Lookup(fr.vals, f.name).t # "list" THEN FailP(p)
-            ELSE [p EXCEPT !.stack = Append(@, [kind |-> "rep", f |-> f, items |-> Lookup(fr.vals, f.name).v, i |-> 1])]
+            ELSE [p EXCEPT !.stack = Append(@, [kind |-> "rep", f |-> f, items |-> Lookup(fr.vals, f.name).l, i |-> 1])]
       [] f.k = "Opt" ->
             IF ~has THEN FailP(p)
             ELSE LET v == Lookup(fr.vals, f.name) IN
